@@ -5,6 +5,10 @@ from hypothesis import strategies as st
 import lentil
 import importlib
 
+# the check's own calls are issued with keywords or positionally in the documented order (vlib/callforms.py)
+from vlib import callforms as _cf
+lentil = _cf.proxy(lentil)
+
 lz = importlib.import_module("lentil.zernike")   # `lentil.zernike` itself is the function
 from vlib import gen
 from vlib.ref import zern
